@@ -223,7 +223,7 @@ static int rc_gate(int bit, const char *name)
     return hit;
 }
 
-void shim_nonblock_watch(bool on) { nb_watch = on; wait_seen = 0; }
+void shim_nonblock_watch(bool on) { nb_watch = on; if (on) wait_seen = 0; }	/* the count survives switching the watch off */
 int shim_wait_seen(void) { int w = wait_seen; wait_seen = 0; return w; }
 
 void shim_log_enable(bool on) { evlog_on = on; }
